@@ -19,7 +19,13 @@ pub fn generate_optimization_report(
 
     let mut total_optimizations_found = 0;
 
-    for optimization in optimizations {
+    //Render in a fixed order: patterns by enum discriminant, entries by (file, lines)
+    let mut optimizations: Vec<_> = optimizations.into_iter().collect();
+    optimizations.sort_by_key(|entry| entry.0 as usize);
+
+    for mut optimization in optimizations {
+        optimization.1.sort();
+
         if optimization.1.len() > 0 {
             let optimization_target = optimization.0;
             let matches = optimization.1;
